@@ -529,7 +529,7 @@ def main():
             reg.append('    h(mal_%s, 64, crate::containers::malformed_fixed::<%s, _, %d>, "complete", "C06", "%s Deserialize; Deserializer::read_*", "");' % (n, T, m, der))
     nat = ["// GENERATED by /verif/gen/gen_family.py -- native (small-scope enumeration) registry for the family",
            "pub fn native_family_registry() -> Vec<(&'static str, fn(&mut crate::src::EnumSrc))> {", "    vec!["]
-    for n in CONTAINER_TYPES + ["EVerMid", "SWithOnly", "EDir", "EOnly", "SVerOrder", "SAbiRem", "SMidRange", "SOuterVer", "SContVer", "EVerField", "SDeferred3", "SDeferred4", "EVerPacked", "ERemFirst", "ERemLast", "SRecordAl"]:
+    for n in CONTAINER_TYPES + ["EVerMid", "SWithOnly", "EDir", "EOnly", "SVerOrder", "SAbiRem", "SMidRange", "SOuterVer", "SContVer", "EVerField", "SDeferred3", "SDeferred4", "EVerPacked", "ERemFirst", "ERemLast", "SRecordAl", "HC1", "HD2", "HA1", "HE3", "HF1", "HG2"]:
         nat.append('        // n(nschema_%s, "C12", "derive WithSchema for %s; savefile::get_schema; derive Serialize", "small-scope values of %s at its current version");' % (n, n, n))
         nat.append('        ("nschema_%s", (|s: &mut crate::src::EnumSrc| crate::schemaread::schema_faithful::<crate::family_gen::%s, _>(s)) as fn(&mut crate::src::EnumSrc)),' % (n, n))
     xnat = []
